@@ -50,6 +50,7 @@ type modEntry struct {
 	heap string // "" = any heap
 	id   Term
 	low  Term // non-empty: the whole region of ids >= low (scratch state owned by an object), any heap
+	cond Term // non-empty: the target may be written only when cond holds
 }
 
 type loopInfo struct {
@@ -459,7 +460,11 @@ func (fv *FuncVC) writable(heap string, id Term) Term {
 		if m.low != "" {
 			ds = append(ds, app(">=", id, m.low))
 		} else if m.heap == "" || m.heap == heap {
-			ds = append(ds, eq(id, m.id))
+			if m.cond != "" {
+				ds = append(ds, and(eq(id, m.id), m.cond))
+			} else {
+				ds = append(ds, eq(id, m.id))
+			}
 		}
 	}
 	return or(ds...)
